@@ -7,7 +7,7 @@
 (*                                                                         *)
 (* A command line is a sequence of words                                   *)
 (*   [k |-> "op", t |-> "not" | "and" | "or" | "comma" | "lp" | "rp"]      *)
-(*   [k |-> "test", t |-> a test record of Stat.TestHolds]                 *)
+(*   [k |-> "test", q |-> a test record of Stat.TestHolds]                 *)
 (*   [k |-> "glob", on |-> "name" | "path", pat |-> characters, fold]      *)
 (*   [k |-> "const", v |-> BOOLEAN]   [k |-> "prune"]   [k |-> "quit"]     *)
 (*   [k |-> "print", delim |-> 10 | 0]   [k |-> "printf", fmt |-> chars]   *)
@@ -26,7 +26,7 @@ SemParse(words) == RefParse(Toks(words))
 \* one primary on one entry: [v, out (bytes), quit, prune]
 SRes(v, out, q, p) == [v |-> v, out |-> out, quit |-> q, prune |-> p]
 WordEval(tree, cfg, start, e, w) ==
-  IF w.k = "test" THEN SRes(TestHolds(tree, cfg, e, w.t), <<>>, FALSE, FALSE)
+  IF w.k = "test" THEN SRes(TestHolds(tree, cfg, e, w.q), <<>>, FALSE, FALSE)
   ELSE IF w.k = "glob" THEN
        SRes(GlobMatch(w.pat, Utf8Decode(IF w.on = "name" THEN NameOf(e.path) ELSE e.path), w.fold), <<>>, FALSE, FALSE)
   ELSE IF w.k = "const" THEN SRes(w.v, <<>>, FALSE, FALSE)
